@@ -172,19 +172,25 @@ def run(tier):
         gt = vf.tlc_gen('gen/MC_C07', c, timeout=2400)
         rep.add_tlc(gt[1])
         recs += vf.run_shards(binary, gt[0])
+    gx = vf.tlc_gen('gen/MC_C08xc', 'gen/MC_C08xc_%s.cfg' % ('q' if tier == 'quick' else 't'), timeout=2400)   # tagged CBOR numbers (decimal fractions, bigfloats)
+    rep.add_tlc(gx[1])
+    recs += vf.run_shards(binary, gx[0])
     tr = sorted([r for r in recs if r.get('k') == 'trace'], key=lambda r: (r['enc'], r['idx']))
     def csig(r):
         c = r.get('case') if isinstance(r.get('case'), dict) else {}
         return {'what': 'crash', 'case': json.dumps(c)[:300]}
     vf.g_triage(rep, binary, [r for r in recs if r.get('k') != 'trace'], csig)
-    lines = [json.dumps({k: v for k, v in r.items() if k not in ('k', 'idx', 'err')}) for r in tr]
+    lines = [json.dumps({k: v for k, v in r.items() if k not in ('k', 'idx', 'err', 'dev')}) for r in tr]
     v = vf.validate_traces('trace/Trace_C08', 'trace/Trace_C08.cfg', lines, max_fail=12, timeout=2400)
     rep.coverage['states'] += v['states']
     rep.coverage['transitions'] += v['transitions']
     for i in v['rejected']:
         r = tr[i]
         case = {'ev': r['ev'], 'v': r['v'], 'right': r['right']} if 'ev' in r else {'b': r['in'], 'f': r['src'], 'ok': True}
-        rep.violation({'encoder': r['enc'], 'input': json.dumps(r.get('ev', r.get('in')))[:400]}, case,
+        vsig = {'encoder': r['enc'], 'input': json.dumps(r.get('ev', r.get('in')))[:400]}
+        if r.get('dev'):
+            vsig['dev'] = r['dev']
+        rep.violation(vsig, case,
                       {'out': r['out'], 'bytes': bytes(r['bytes'][:80]).hex(), 'err': r.get('err')})
     cov = rep.coverage
     cov['traces_validated_against_impl'] = v['validated']
@@ -196,7 +202,7 @@ def run(tier):
     cov['runs_refused'] = sum(1 for r in tr if r['out'] == 'err')
     cov['rule'] = ('event sequences = every complete sequence accepted by the Events PDA up to MaxEv events over begin_array/begin_object with '
                    'declared length in Lens or undeclared, end_array/end_object, 2 keys, 7 scalar kinds (uint, negative int, string, null, bool, '
-                   'double, byte string); transcoding inputs = all inputs accepted in the listed C07 byte-level spaces, written as compact and '
+                   'double, byte string); transcoding inputs = all inputs accepted in the listed C07 byte-level spaces and every CBOR decimal fraction / bigfloat of spec/gen/MC_C08xc (exponents -MaxExp..MaxExp x 19 mantissas incl. zero and bignums), written as compact and '
                    'pretty JSON text; one trace line per (sequence or input, encoder)')
     cov['bounds'] = open(os.path.join(vf.SPEC, CFG[tier])).read().split('CONSTANTS')[1].split()
     cov['samples'] = [json.loads(x) for x in lines[:1]] + [json.loads(lines[-1])]
@@ -225,7 +231,7 @@ def replay(path):
     binary = vf.build('c08', ['c08.cpp'])
     recs = vf.run_one(binary, d['case'])
     tr = [r for r in recs if r.get('k') == 'trace' and r.get('enc') in ENCODERS + ['transcode-json']]
-    lines = [json.dumps({k: v for k, v in r.items() if k not in ('k', 'idx', 'err')}) for r in tr]
+    lines = [json.dumps({k: v for k, v in r.items() if k not in ('k', 'idx', 'err', 'dev')}) for r in tr]
     v = vf.validate_traces('trace/Trace_C08', 'trace/Trace_C08.cfg', lines)
     for r in tr:
         print(r['enc'], r['out'], bytes(r['bytes'][:80]))
